@@ -166,6 +166,9 @@ func (v *Vue) evalObjectBinding(ctx VueContext, attrName, expr string) string {
 	}
 
 	content := expr[1 : len(expr)-1] // Remove { }
+	if attrName == "class" {
+		return v.evalClassObject(ctx, content)
+	}
 	pairs := v.parseObjectPairs(ctx, content)
 
 	switch attrName {
@@ -183,6 +186,35 @@ func (v *Vue) evalObjectBinding(ctx VueContext, attrName, expr string) string {
 		}
 	}
 	return strings.Join(values, " ")
+}
+
+// evalClassObject evaluates a class object {name: expr, ...} and returns the
+// names whose value is truthy. Truthiness is decided on the evaluated value
+// itself (helpers.IsTruthy), exactly as v-if and bound attributes do.
+func (v *Vue) evalClassObject(ctx VueContext, content string) string {
+	var classes []string
+	for _, item := range v.splitObjectItems(content) {
+		item = strings.TrimSpace(item)
+		colonIdx := strings.Index(item, ":")
+		if item == "" || colonIdx == -1 {
+			continue
+		}
+		key := strings.Trim(strings.TrimSpace(item[:colonIdx]), "'")
+		valueExpr := strings.TrimSpace(item[colonIdx+1:])
+
+		val, err := v.exprEval.Eval(valueExpr, ctx.stack.EnvMap())
+		if err != nil {
+			var ok bool
+			val, ok = ctx.stack.Resolve(valueExpr)
+			if !ok {
+				continue
+			}
+		}
+		if helpers.IsTruthy(val) {
+			classes = append(classes, key)
+		}
+	}
+	return strings.Join(classes, " ")
 }
 
 // parseObjectPairs parses key:value pairs from an object literal.
